@@ -34,7 +34,14 @@ func specCollectionElem(t types.Type) string {
 	}
 	for _, cand := range []types.Type{el, t} {
 		p := goan.NamedPath(cand)
-		for _, pre := range []string{"github.com/go-openapi/spec.", "github.com/go-openapi/analysis.", "go/types.", "golang.org/x/tools/go/packages."} {
+		if pt, ok := cand.(*types.Pointer); ok {
+			p = goan.NamedPath(pt.Elem())
+		}
+		// the diff analyser's own indexes of the two specs: operations by URL and method, properties by name
+		if strings.HasSuffix(p, "/commands/diff.PathItemOp") || strings.HasSuffix(p, "/commands/diff.PropertyDefn") {
+			return p[strings.LastIndex(p, "/")+1:]
+		}
+		for _, pre := range []string{"github.com/go-openapi/spec.", "github.com/go-openapi/analysis.", "go/types.", "go/ast.", "golang.org/x/tools/go/packages."} {
 			if strings.HasPrefix(p, pre) {
 				return p[strings.LastIndex(p, "/")+1:]
 			}
@@ -42,6 +49,11 @@ func specCollectionElem(t types.Type) string {
 	}
 	return ""
 }
+
+// astLoopFuncs: the functions that collect declarations and annotations from the syntax trees; their loops
+// over go/ast collections are part of the reviewed tables (look-up helpers that scan the same trees for one
+// name are not: they leave their loops by design).
+var astLoopFuncs = map[string]bool{"typeIndex.processDecl": true, "typeIndex.processPackage": true, "typeIndex.detectNodes": true}
 
 // checkLoopTotality: every loop over a collection of the input (definitions, properties, allOf
 // members, parameters, responses, headers, security schemes, tags, operations; struct fields and
@@ -165,6 +177,9 @@ func checkLoopTotality(c *Ctx, rule string, pk *packages.Package, label string, 
 			if elem == "" || body == nil {
 				return true
 			}
+			if strings.HasPrefix(elem, "ast.") && !astLoopFuncs[load.FuncName(fd)] {
+				return true // syntax-tree loops are reviewed where declarations and annotations are collected
+			}
 			ordinal[elem]++
 			loopKey := fmt.Sprintf("%s.%s › loop over %s #%d", label, load.FuncName(fd), elem, ordinal[elem])
 			counts := map[string]int{}
@@ -203,6 +218,25 @@ func checkLoopTotality(c *Ctx, rule string, pk *packages.Package, label string, 
 								"an iteration over a collection of the input is left early at a site that is "+why+": the remaining work for that element (or for the elements after it) is skipped — a definition, parameter, response, scheme or field can be dropped from the output")
 						}
 					case *ast.ReturnStmt:
+						// a predicate answering from inside the loop: the condition under which it answers is the
+						// predicate (an existential / universal over the collection)
+						if len(y.Results) == 1 && (goan.IsIdent(y.Results[0], "true") || goan.IsIdent(y.Results[0], "false")) {
+							counts["answer"]++
+							key := fmt.Sprintf("%s › answers %s #%d", loopKey, goan.ExprString(y.Results[0]), counts["answer"])
+							seen[key] = true
+							ok, why := reviewed(key, guardsOf(info, body, y.Pos()))
+							c.Check(ok, rule, key, c.posOf(pk, y.Pos()), "reviewed: "+why,
+								"a predicate over a collection of the input answers from inside its loop at a site that is "+why+": what it says about the collection (some element has…, every element is…) changed")
+						}
+						if len(y.Results) == 0 && (fd.Type.Results == nil || fd.Type.Results.NumFields() == 0) {
+							// a bare return of a procedure: the elements after this one are never looked at
+							counts["return"]++
+							key := fmt.Sprintf("%s › success return #%d", loopKey, counts["return"])
+							seen[key] = true
+							ok, why := reviewed(key, guardsOf(info, body, y.Pos()))
+							c.Check(ok, rule, key, c.posOf(pk, y.Pos()), "reviewed: "+why,
+								"a loop over a collection of the input returns from inside an iteration at a site that is "+why+": the elements after it are never looked at")
+						}
 						if n := len(y.Results); n > 0 && goan.IsNil(info, y.Results[n-1]) {
 							counts["return"]++
 							key := fmt.Sprintf("%s › success return #%d", loopKey, counts["return"])
